@@ -12,8 +12,8 @@ import (
 
 func init() {
 	register(&propDef{
-		id:  "C11",
-		run: runC11,
+		id:          "C11",
+		run:         runC11,
 		explanation: "Static analysis of the transaction mechanism: isolation by sequence (entries keyed tr.seq+1.., tr.seq advanced only after a successful insert; db.seq moved only by writeLocked/Transaction.Commit; session.commit with the transaction's record only from Commit); commit order (flush → record seq → manifest commit → publish seq); the sequence is captured only after the frozen buffer is flushed; setDone performs each of its four releases exactly once; every exported method tests `closed` before doing anything, with tr.lk held (exhaustive over the method set, guarded-by for the transaction's fields); reads layer the transaction's own buffer and tables first; Close discards an open transaction before taking the lock; the internally opened large-batch transaction is finished on every exit; discard removes every table through the file cache before the lock is released; the write-lock token contracts. Necessary conditions only: visibility to concurrent readers at runtime and crash images around commit are NOT decided.",
 		notCovered:  "visibility from concurrent readers at runtime; crash images around commit; that a discarded transaction's partially committed manifest records cannot resurface",
 		assumptions: []string{"token contracts and guarded-by tables in the checker"},
